@@ -234,7 +234,7 @@ def rule_effect(facts, cg):
             root = path[-1]
             r.violate(prefix + op, "effect:" + m.rsplit("::", 1)[-1],
                       f"{op} reaches {m} (path: {' <- '.join(path[:6])}): a statement of this kind would remove/alter objects or rows it "
-                      "does not name", cg.nodes.get("glaredb_core::" + root, {}).get("file", ""), cg.nodes.get("glaredb_core::" + root, {}).get("line", 0))
+                      "does not name", cg.nodes.get(roots[0], {}).get("file", ""), cg.nodes.get(roots[0], {}).get("line", 0))
     return r
 
 
